@@ -1,0 +1,95 @@
+//go:build verif
+
+// Contracts for the deductive verification machinery in /verif (comment-only; compiled only with -tags=verif).
+package server
+
+// ---------------------------------------------------------------------------
+// C13: namespaces
+
+//@ unit server.getURLParts
+//@   prop C13
+//@   ensures [concat] ret2 == nil ==> ret0 + ret1 == url
+//@   ensures [ends-in-separator] ret2 == nil ==> hasSuffix(ret0, "#") || hasSuffix(ret0, "/")
+//@   ensures [hash-wins] contains(url, "#") ==> ret2 == nil && hasSuffix(ret0, "#") && !contains(ret1, "#")
+//@   ensures [last-slash] !contains(url, "#") && contains(url, "/") ==> ret2 == nil && hasSuffix(ret0, "/") && !contains(ret1, "/")
+//@   ensures [error-iff-no-separator] (ret2 == nil) <==> (contains(url, "#") || contains(url, "/"))
+//@   modifies none
+//@   safe slice
+
+// object invariant of the namespace registry (requires-inv clauses below): established empty by NewNamespaceManager, loaded by Store.Open
+// (the persisted state was written by AssertPrefixMappingForExpansion), re-established by AssertPrefixMappingForExpansion. Nobody else writes.
+//@ writers [C13] NamespaceManager.prefixToExpansionMapping: NewNamespaceManager, (*Store).Open, (*NamespaceManager).AssertPrefixMappingForExpansion
+//@ writers [C13] NamespaceManager.expansionToPrefixMapping: NewNamespaceManager, (*Store).Open, (*NamespaceManager).AssertPrefixMappingForExpansion
+//@ guarded NamespaceManager.prefixToExpansionMapping by lock
+//@ guarded NamespaceManager.expansionToPrefixMapping by lock
+
+//@ unit (*NamespaceManager).ExpandCurie
+//@   prop C13
+//@   requires namespaceManager != nil && !has($held, addrOf(namespaceManager.lock))
+//@   ensures [first-colon-split] indexOf(curie, ":") >= 0 && has(namespaceManager.prefixToExpansionMapping, curie[:indexOf(curie, ":")])
+//@     | ==> ret1 == nil && ret0 == namespaceManager.prefixToExpansionMapping[curie[:indexOf(curie, ":")]] + curie[indexOf(curie, ":")+1:]
+//@   ensures [unknown-prefix-is-error] !(indexOf(curie, ":") >= 0 && has(namespaceManager.prefixToExpansionMapping, curie[:indexOf(curie, ":")])) ==> ret1 != nil
+//@   ensures [lock-released] $held == old($held)
+//@   modifies $held
+//@   safe slice
+
+//@ unit (*NamespaceManager).GetPrefixMappingForExpansion
+//@   prop C13
+//@   requires namespaceManager != nil && !has($held, addrOf(namespaceManager.lock))
+//@   ensures [lookup] has(namespaceManager.expansionToPrefixMapping, uriExpansion) ==> ret1 == nil && ret0 == namespaceManager.expansionToPrefixMapping[uriExpansion]
+//@   ensures [lock-released] $held == old($held)
+//@   modifies $held
+
+//@ unit (*NamespaceManager).GetPrefixToExpansionMap
+//@   prop C13
+//@   requires namespaceManager != nil && !has($held, addrOf(namespaceManager.lock))
+//@   ensures [lock-released] $held == old($held)
+//@   ensures [snapshot-copy] result != namespaceManager.prefixToExpansionMapping
+//@   ensures [snapshot-complete] forall p string :: has(namespaceManager.prefixToExpansionMapping, p) ==> has(result, p) && result[p] == namespaceManager.prefixToExpansionMapping[p]
+//@   ensures [snapshot-exact] forall p string :: has(result, p) ==> has(namespaceManager.prefixToExpansionMapping, p)
+//@   modifies $held, MapDom.string.string, MapVal.string.string, MapLen.string.string
+//@   loop 1
+//@     invariant result != 0 && result != namespaceManager.prefixToExpansionMapping
+//@     invariant forall p string :: visited(p) ==> has(result, p) && result[p] == namespaceManager.prefixToExpansionMapping[p]
+//@     invariant forall p string :: has(result, p) ==> visited(p) && has(namespaceManager.prefixToExpansionMapping, p)
+//@     invariant forall p string :: (has(namespaceManager.prefixToExpansionMapping, p) <==> old(has(namespaceManager.prefixToExpansionMapping, p))) && namespaceManager.prefixToExpansionMapping[p] == old(namespaceManager.prefixToExpansionMapping[p])
+
+// the namespace registry: prefixes are exactly ns0 .. ns(N-1), the two maps are mutual inverses
+//@ spec nsIndex(p string) int
+//@ axiomlemma itoa_digits(n int): !contains("ns" + itoa(n), ":")
+//@ axiom nsIndex_def: forall i int :: i >= 0 ==> nsIndex("ns" + itoa(i)) == i
+
+//@ unit (*NamespaceManager).AssertPrefixMappingForExpansion
+//@   prop C13
+//@   requires namespaceManager != nil && !has($held, addrOf(namespaceManager.lock))
+//@   requires-inv [inv-maps] namespaceManager.prefixToExpansionMapping != nil && namespaceManager.expansionToPrefixMapping != nil && namespaceManager.prefixToExpansionMapping != namespaceManager.expansionToPrefixMapping
+//@   requires-inv [inv-dense] forall i int :: 0 <= i && i < len(namespaceManager.prefixToExpansionMapping) ==> has(namespaceManager.prefixToExpansionMapping, "ns" + itoa(i))
+//@   requires-inv [inv-shape] forall p string :: has(namespaceManager.prefixToExpansionMapping, p) ==> 0 <= nsIndex(p) && nsIndex(p) < len(namespaceManager.prefixToExpansionMapping) && p == "ns" + itoa(nsIndex(p))
+//@   requires-inv [inv-inverse1] forall e string :: has(namespaceManager.expansionToPrefixMapping, e) ==> has(namespaceManager.prefixToExpansionMapping, namespaceManager.expansionToPrefixMapping[e]) && namespaceManager.prefixToExpansionMapping[namespaceManager.expansionToPrefixMapping[e]] == e
+//@   requires-inv [inv-inverse2] forall p string :: has(namespaceManager.prefixToExpansionMapping, p) ==> has(namespaceManager.expansionToPrefixMapping, namespaceManager.prefixToExpansionMapping[p]) && namespaceManager.expansionToPrefixMapping[namespaceManager.prefixToExpansionMapping[p]] == p
+//@   ensures [existing-returned-unchanged] old(has(namespaceManager.expansionToPrefixMapping, uriExpansion)) ==> ret1 == nil && ret0 == old(namespaceManager.expansionToPrefixMapping[uriExpansion])
+//@   ensures [mapped] ret1 == nil ==> has(namespaceManager.expansionToPrefixMapping, uriExpansion) && namespaceManager.expansionToPrefixMapping[uriExpansion] == ret0 && namespaceManager.prefixToExpansionMapping[ret0] == uriExpansion && has(namespaceManager.prefixToExpansionMapping, ret0)
+//@   ensures [permanent] forall e string :: old(has(namespaceManager.expansionToPrefixMapping, e)) ==> has(namespaceManager.expansionToPrefixMapping, e) && namespaceManager.expansionToPrefixMapping[e] == old(namespaceManager.expansionToPrefixMapping[e])
+//@   ensures [permanent-prefix] forall p string :: old(has(namespaceManager.prefixToExpansionMapping, p)) ==> has(namespaceManager.prefixToExpansionMapping, p) && namespaceManager.prefixToExpansionMapping[p] == old(namespaceManager.prefixToExpansionMapping[p])
+//@   ensures [inv-dense-kept] forall i int :: 0 <= i && i < len(namespaceManager.prefixToExpansionMapping) ==> has(namespaceManager.prefixToExpansionMapping, "ns" + itoa(i))
+//@   ensures [inv-shape-kept] forall p string :: has(namespaceManager.prefixToExpansionMapping, p) ==> 0 <= nsIndex(p) && nsIndex(p) < len(namespaceManager.prefixToExpansionMapping) && p == "ns" + itoa(nsIndex(p))
+//@   ensures [one-prefix-per-expansion] forall e string :: has(namespaceManager.expansionToPrefixMapping, e) ==> has(namespaceManager.prefixToExpansionMapping, namespaceManager.expansionToPrefixMapping[e]) && namespaceManager.prefixToExpansionMapping[namespaceManager.expansionToPrefixMapping[e]] == e
+//@   ensures [one-expansion-per-prefix] forall p string :: has(namespaceManager.prefixToExpansionMapping, p) ==> has(namespaceManager.expansionToPrefixMapping, namespaceManager.prefixToExpansionMapping[p]) && namespaceManager.expansionToPrefixMapping[namespaceManager.prefixToExpansionMapping[p]] == p
+//@   ensures [prefix-colon-free] ret1 == nil ==> !contains(ret0, ":")
+//@   ensures [new-prefix-fresh] !old(has(namespaceManager.expansionToPrefixMapping, uriExpansion)) && ret1 == nil ==> !old(has(namespaceManager.prefixToExpansionMapping, ret0))
+//@   ensures [persisted-before-ack] !old(has(namespaceManager.expansionToPrefixMapping, uriExpansion)) && ret1 == nil ==> has($persisted, "namespacestate")
+//@   ensures [lock-released] $held == old($held)
+//@   at return
+//@     assert [prefix-shape] prefix == "ns" + itoa(nsIndex(prefix))
+//@     use itoa_digits(nsIndex(prefix))
+//@   at call Itoa#1
+//@     assert [fresh-prefix] !has(namespaceManager.prefixToExpansionMapping, "ns" + itoa(len(namespaceManager.prefixToExpansionMapping)))
+//@   modifies $held, $persisted, MapDom.string.string, MapVal.string.string, MapLen.string.string, F.server.NamespacesState.*
+
+// compacting a URI and expanding the CURIE again gives the URI back: the result satisfies ExpandCurie's success condition with value val
+//@ unit (*Store).GetNamespacedIdentifierFromURI
+//@   prop C13
+//@   requires s != nil && s.NamespaceManager != nil && !has($held, addrOf(s.NamespaceManager.lock))
+//@   ensures [roundtrip] ret1 == nil ==> indexOf(ret0, ":") >= 0 && has(s.NamespaceManager.prefixToExpansionMapping, ret0[:indexOf(ret0, ":")])
+//@     | && s.NamespaceManager.prefixToExpansionMapping[ret0[:indexOf(ret0, ":")]] + ret0[indexOf(ret0, ":")+1:] == val
+//@   ensures [only-http] ret1 == nil ==> hasPrefix(val, "http://") || hasPrefix(val, "https://")
